@@ -120,6 +120,8 @@ def tlc_cmd(module_path, cfg_path, workers=1, metadir=None, extra=(), xmx='3g', 
     libpath = os.pathsep.join(_spec_path_dirs())
     cmd = ['java', '-XX:+UseParallelGC', '-Xmx' + xmx, '-Xss' + xss,
            '-DTLA-Library=' + libpath]
+    if metadir:
+        cmd.append('-Djava.io.tmpdir=' + metadir)         # (TLC leaves an empty tlc-<n> directory per run in the temp dir)
     if deque:
         cmd.append('-Dtlc2.tool.queue.IStateQueue=StateDeque')
     cmd += ['-cp', JAR + ':' + DEPS, 'tlc2.TLC', '-noGenerateSpecTE',
